@@ -21,3 +21,9 @@ pub use generator::{
     Generator, GeneratorConfig, GeneratorError, GeneratorUtils, ModelInputsConfig,
 };
 pub use logits::Logits;
+
+/// Verification hooks (only compiled with `--cfg rten_verif`): re-exports of
+/// crate-private items so an external harness can call them directly.
+#[cfg(rten_verif)]
+#[doc(hidden)]
+pub mod verif {}
